@@ -5,6 +5,7 @@ package main
 
 import (
 	"bufio"
+	"bytes"
 	"crypto/sha256"
 	"encoding/hex"
 	"encoding/json"
@@ -12,6 +13,7 @@ import (
 	"fmt"
 	"io/ioutil"
 	"os"
+	"os/exec"
 	"path/filepath"
 	"sort"
 	"strconv"
@@ -86,6 +88,7 @@ type scenario struct {
 }
 
 type runner struct {
+	tdSeen  map[int]time.Time
 	root    *rec.Recorder
 	lenient bool
 	w       *node.World
@@ -108,6 +111,19 @@ func (x *runner) settledOnce() (bool, string) {
 		}
 		if cl.Established() && !cl.Ended() {
 			if w.Count("shutdown.done:"+sid) > 0 {
+				// teardown finished; the broker closes the connection right after it: give that a moment, so that the
+				// close is recorded before the next step (if it never comes, the specification will say so)
+				if !cl.ClosedByBroker() {
+					if x.tdSeen == nil {
+						x.tdSeen = map[int]time.Time{}
+					}
+					if t0, ok := x.tdSeen[c]; !ok {
+						x.tdSeen[c] = time.Now()
+						return false, fmt.Sprintf("close of c%d", c)
+					} else if time.Since(t0) < 400*time.Millisecond {
+						return false, fmt.Sprintf("close of c%d", c)
+					}
+				}
 				cl.MarkEnded()
 				continue
 			}
@@ -263,6 +279,7 @@ func (x *runner) run(idx int, s scenario) {
 	x.gossip = "auto"
 	x.stall = false
 	x.lenient = s.Lenient
+	x.tdSeen = nil
 	defer w.Close()
 	if len(s.Nodes) == 0 {
 		s.Nodes = []int{1}
@@ -563,18 +580,83 @@ func main() {
 	scn := flag.String("scenarios", "", "scenario file (NDJSON)")
 	out := flag.String("out", "trace.ndjson", "trace output")
 	shard := flag.String("shard", "0/1", "process scenarios i (mod n)")
+	one := flag.Int("one", 0, "run only scenario N (1-based) in this process")
 	flag.Parse()
+	if *one > 0 {
+		runOne(*scn, *out, *one)
+		return
+	}
+	// Every scenario runs in a process of its own: goroutines of a finished scenario (a hostile connection still being
+	// parsed, a late teardown) cannot reach the hooks or the trace of the next one, and a panic of the broker kills
+	// exactly one scenario, which is then recorded as "process.died".
 	parts := strings.Split(*shard, "/")
 	si, _ := strconv.Atoi(parts[0])
 	sn, _ := strconv.Atoi(parts[1])
+	in, err := os.Open(*scn)
+	if err != nil {
+		panic(err)
+	}
+	total := 0
+	sc := bufio.NewScanner(in)
+	sc.Buffer(make([]byte, 1<<20), 1<<28)
+	for sc.Scan() {
+		total++
+	}
+	in.Close()
+	self, _ := os.Executable()
 	f, err := os.Create(*out)
 	if err != nil {
 		panic(err)
 	}
 	defer f.Close()
+	for n := 1; n <= total; n++ {
+		if (n-1)%sn != si {
+			continue
+		}
+		tmp := fmt.Sprintf("%s.%d", *out, n)
+		cmd := exec.Command(self, "-scenarios", *scn, "-out", tmp, "-one", strconv.Itoa(n))
+		var stderr bytes.Buffer
+		cmd.Stderr = &stderr
+		done := make(chan error, 1)
+		cmd.Start()
+		go func() { done <- cmd.Wait() }()
+		var werr error
+		select {
+		case werr = <-done:
+		case <-time.After(300 * time.Second):
+			cmd.Process.Kill()
+			werr = <-done
+			stderr.WriteString("\nharness: scenario exceeded 300 s and was killed")
+		}
+		if b, err := ioutil.ReadFile(tmp); err == nil {
+			f.Write(b)
+			if len(b) > 0 && b[len(b)-1] != '\n' {
+				f.Write([]byte("\n"))
+			}
+		}
+		os.Remove(tmp)
+		if werr != nil {
+			msg := stderr.String()
+			if len(msg) > 6000 {
+				msg = msg[:3000] + "\n...\n" + msg[len(msg)-3000:]
+			}
+			b, _ := json.Marshal(rec.Ev{"op": "process.died", "scn": n, "exit": werr.Error(), "stderr": msg})
+			f.Write(append(b, '\n'))
+		}
+	}
+	fmt.Fprintf(os.Stderr, "scenarios=%d\n", total)
+}
+
+func runOne(scnFile, out string, idx int) {
+	f, err := os.Create(out)
+	if err != nil {
+		panic(err)
+	}
+	defer f.Close()
 	r := rec.New(f)
+	r.AutoFlush = true
 	defer r.Flush()
-	in, err := os.Open(*scn)
+	in, err := os.Open(scnFile)
 	if err != nil {
 		panic(err)
 	}
@@ -584,7 +666,7 @@ func main() {
 	n := 0
 	for sc.Scan() {
 		n++
-		if (n-1)%sn != si {
+		if n != idx {
 			continue
 		}
 		var s scenario
@@ -594,5 +676,4 @@ func main() {
 		x.run(n, s)
 		r.Flush()
 	}
-	fmt.Fprintf(os.Stderr, "scenarios=%d\n", n)
 }
